@@ -51,6 +51,11 @@ def params(tier):
         third = {"sig": "C", "period": 0.5, "times": times, "deferred": deferred, "kind": kind}
         q = tier == "quick"
         ps.append({"sources": base + [third], "bound": 1 if q else 2, "time_horizon": 0.5 if q else 1.0})
+    # the list is full but one of its entries is a one-shot that has already fired (miros keeps finished sources listed
+    # until they are cancelled): the object still tracks its maximum, a further timed post is refused
+    for deferred in (True, False):
+        third = {"sig": "C", "period": 0.5, "times": 1, "deferred": deferred, "kind": "fifo", "at": 1.25}
+        ps.append({"sources": base + [third], "bound": 0 if q else 1, "time_horizon": 2.0})
     return ps
 
 
